@@ -26,11 +26,12 @@ type ReadArgs struct {
 
 // WriteArgs carries the optional parts of a single-item write.
 type WriteArgs struct {
-	Cond   *string
-	Names  map[string]string
-	Values Item
-	Rvf    bool // ReturnValuesOnConditionCheckFailure = ALL_OLD (SDK v2 only)
-	Retold bool // ReturnValues = ALL_OLD (DeleteItem)
+	Cond    *string
+	Names   map[string]string
+	Values  Item
+	Rvf     bool   // ReturnValuesOnConditionCheckFailure = ALL_OLD (SDK v2 only)
+	Retold  bool   // ReturnValues = ALL_OLD (DeleteItem)
+	RetVals string // when set: the ReturnValues field of DeleteItem verbatim (legal or not)
 }
 
 // Prim is the set of primitive calls both SDK back ends implement.
